@@ -8,7 +8,8 @@ func Spec() *run.Spec {
 	return &run.Spec{
 		ID: "C16", Level: "exploration",
 		Rule: "A case is one generated element set (points — index list identity/permuted/shared/with unreferenced vertices —, line strip, independent segments, triangles, boxes or a mixture; 1–400 elements; " +
-			"layouts uniform/clustered/coincident/overlapping/collinear/coplanar/integer lattice/welded grid; depth 0…6 or automatic; every public constructor path) " +
+			"layouts uniform/clustered/coincident/overlapping/collinear/coplanar/integer lattice/welded grid; ≈12 % of the scenes with special coordinates: scene translated so that a vertex / bounds min / bounds max is exactly 0 on 1–3 axes, " +
+			"zero-extent elements exactly at the world origin (first, last, inside, several; ±0) and at {-1,0,1}³, queried at the origin, with r = 0.5 and by axis rays through the origin; depth 0…6 or automatic; every public constructor path) " +
 			"with 20 query positions (ClosestPoint, ElementsContainingPoint, ElementsWithinRange) and 20 rays (ElementsIntersectingRay, TraverseIntersectingRay, " +
 			"nearest hit through the narrowing traversal), resp. one triangle mesh with 20 rays through BVHNode/HitList/rendering.Mesh/rendering.Tree. " +
 			"Every answer is compared with a brute-force scan using the harness's own closest-point, slab and Möller–Trumbore code. " +
@@ -34,6 +35,8 @@ func Spec() *run.Spec {
 			"containing_boundary_decisions_checked": 20000, "range_boundary_decisions_checked": 20000, "ray_boundary_decisions_checked": 20000,
 			"bvh_rays_with_definite_hit": 10000, "bvh_rays_definite_miss": 5000,
 			"element_kinds": 6, "layouts": 9, "constructors": 5, "depths": 8, "point_cloud_index_patterns": 6, "point_clouds_with_more_points_than_vertices": 100,
+			"scenes_with_special_coordinates": 500, "scenes_with_zero_extent_element_at_world_origin": 150,
+			"scenes_with_zero_extent_element_at_world_origin_as_element_0": 80, "special_coordinate_ingredients": 12,
 		},
 		Phases: []run.Phase{
 			{Name: "octree", Cases: func(tier string) int {
